@@ -3,6 +3,7 @@ import NutsModel.C03.Kid
 import NutsModel.C03.KeyStore
 import NutsModel.C03.Jws
 import NutsModel.C03.Api
+import NutsModel.C03.FsList
 import NutsModel.Facts.C03
 open Lean Nuts.Drv Nuts.C03 Nuts
 
@@ -209,6 +210,10 @@ def step (st : St) (j : Json) : St × List String :=
   | "apidecrypt" =>
     let m := if jStr j "msg" == "jwe" then JweMsg.jwe (jStr j "hkid") (jNat j "encFor") else JweMsg.garbage
     (st, ["apidecrypt " ++ showApi (apiDecryptJwe validStr apiCfg "$KEYDIR" s (parseApiReq j) m)])
+  | "listnames" =>
+    -- fs.ListPrivateKeys over a tree of regular files (relative paths): the key names, sorted
+    let names := fsListNames ((jStrs j "files").map unhex) entryType
+    (st, ["listnames [" ++ String.intercalate "," (sortStrs (names.map hex)) ++ "]"])
   | "dpopseq" =>
     -- the same dpop.DPoP signed for several kids; `preset` = a jwk header the caller put on the token before
     let h0 : Headers := if jStr j "preset" == "" then [("typ", .str "dpop+jwt")] else [("typ", .str "dpop+jwt"), ("jwk", .jwk (jStr j "presetRaw") (jStr j "preset"))]
